@@ -32,7 +32,7 @@ import (
 type Config struct {
 	Shape string // l1only | l1l2 | l1l2+batch
 	Lock  string // nolock | lock1r | lockNr
-	L1    string // std | chunked | batched | inmem
+	L1    string // std | chunked | batched | inmem | cluster (l1only: two names of the one L1 fake as nodes)
 	L2    string // - | std | batched
 	Conc  uint8  // lock concurrency (log2 of stripes)
 }
@@ -155,7 +155,19 @@ func build(cfg Config) *Stack {
 	mu.Unlock()
 
 	protocols := []protocol.Components{binprot.Components, textprot.Components}
-	h1 := handlerConst(cfg.L1, s.L1Sock)
+	var h1 handlers.HandlerConst
+	if cfg.L1 == "cluster" {
+		// the cluster handler dials TCP; its two "nodes" are two names of the one
+		// L1 fake, so that the fake sees every backend connection of a client
+		addr, err := s.L1.ListenTCP("127.0.0.1:0")
+		if err != nil {
+			panic(err)
+		}
+		_, port, _ := net.SplitHostPort(addr)
+		h1 = memcached.Cluster([]string{addr, "localhost:" + port}, "verif")
+	} else {
+		h1 = handlerConst(cfg.L1, s.L1Sock)
+	}
 	h2 := handlerConst(cfg.L2, s.L2Sock)
 
 	var o orcas.OrcaConst
